@@ -696,6 +696,27 @@ def is_len_of(t, what):
     return t[0] == "app" and LEN_RE.search(t[1] or "") and len(t[2]) == 1 and t[2][0] == what
 
 
+def canon_len(t):
+    """rewrite `len(<string built from content[a..b]>)` atoms to b - a"""
+    c0, d = S.lin_parts(t)
+    out = const(c0)
+    for a, k in d.items():
+        v = a
+        if a[0] == "app" and LEN_RE.search(a[1] or "") and len(a[2]) == 1 and text_len(a[2][0]) is not None:
+            v = canon_len(text_len(a[2][0]))
+        out = add(out, S.scale(v, k))
+    return out
+
+
+def length_mismatch(r, key, msg, delta, want, wh):
+    """delta != want: a violation when the two are comparable (constant, or built from the same atoms), otherwise the
+    evaluator simply cannot relate them ⇒ analysis failure"""
+    if as_const(delta) is None and not (set(S.atoms(delta)) & set(S.atoms(want))):
+        analysis(r, key, msg + " [the added value could not be related to the child's length: not proven]", wh)
+    else:
+        r.violation(key, msg, wh)
+
+
 class ReplayEv(Ev):
     def __init__(self, c, roles):
         super().__init__(c, inline=lambda p: p.startswith(CR + "::") or p.startswith("<" + CR), depth=3)
@@ -833,10 +854,11 @@ def rule_r3(chk, c, roles, F=None):
             nb_fields[(chf, lf)] = nb_fields.get((chf, lf), 0) + 1
             if how[0] == "token":
                 out["green_token"], out["token_text"] = how[1], how[2]
-                if delta != want_len:
-                    r.violation(key, "replay arm %s pushes a token with text %s (length %s) but adds %s to the node's "
-                                "length: node lengths/offsets no longer tile the text"
-                                % (an, show(how[3])[:80], show(want_len), show(delta)), wh)
+                if canon_len(delta) != canon_len(want_len):
+                    length_mismatch(r, key, "replay arm %s pushes a token with text %s (length %s) but adds %s to the "
+                                    "node's length: node lengths/offsets no longer tile the text"
+                                    % (an, show(how[3])[:80], show(want_len), show(delta)), canon_len(delta),
+                                    canon_len(want_len), wh)
                 # (c) the text is content[starts[i] .. starts[i+1] | content.len()], kind is kinds[i]
                 ckey = "%s:%s:token-span" % (p, an)
                 r.instance(ckey, sample={"text": show(how[3])[:100]})
@@ -871,9 +893,9 @@ def rule_r3(chk, c, roles, F=None):
                 green_fields.add((g[0], gc[0]))
                 out["green_len"], out["green_children"] = g[0], gc[0]
                 if delta != flds[g[0]]:
-                    r.violation(key, "replay arm %s pushes a finished node (length %s) but adds %s to the parent's "
-                                "length: the parent's length is no longer the sum of its children's"
-                                % (an, show(flds[g[0]]), show(delta)), wh)
+                    length_mismatch(r, key, "replay arm %s pushes a finished node (length %s) but adds %s to the "
+                                    "parent's length: the parent's length is no longer the sum of its children's"
+                                    % (an, show(flds[g[0]]), show(delta)), delta, flds[g[0]], wh)
         # increments of a builder length without a push
         for w in incs:
             if not any(e_[1][1] == w[1] for e_ in elem_pushes) and any(w[2] == lf for (_c, lf) in nb_fields):
@@ -1334,15 +1356,26 @@ class RedEv(Ev):
         return None
 
 
+def child_len(G, green):
+    """canonical length term of the green child G (payload of a GreenElement variant)"""
+    if green["green_node"] in green["variant_ty"].get(G[2], ""):
+        return ("fld", G, green["green_len"])
+    return ("app", "core::str::<impl str>::len", (("fld", G, green["token_text"]),))
+
+
+def canon_child_len(delta):
+    """all `…::len(x)` applications are the same function for our purposes"""
+    c0, d = S.lin_parts(delta)
+    out = const(c0)
+    for a, k in d.items():
+        if a[0] == "app" and LEN_RE.search(a[1] or "") and len(a[2]) == 1:
+            a = ("app", "core::str::<impl str>::len", a[2])
+        out = add(out, S.scale(a, k))
+    return out
+
+
 def child_len_ok(delta, G, variant, green):
-    """delta == length of the green child G (payload of GreenElement::<variant>)"""
-    if G[0] != "proj":
-        return False
-    node_variant = any(green["green_node"] and green["green_node"] in (f or "") for f in [green["variant_ty"].get(G[2], "")])
-    if node_variant:
-        return delta == ("fld", G, green["green_len"])
-    return delta[0] == "app" and LEN_RE.search(delta[1] or "") is not None and len(delta[2]) == 1 \
-        and delta[2][0] == ("fld", G, green["token_text"])
+    return G[0] == "proj" and canon_child_len(delta) == child_len(G, green)
 
 
 def rule_r5(chk, c, roles, green):
@@ -1395,6 +1428,7 @@ def rule_r5(chk, c, roles, green):
 
     # ---- (a) the iterator
     handled = set()
+    iter_info = {}
     n_iter = 0
     for im in c.items["impls"]:
         if im["trait"] != "core::iter::traits::iterator::Iterator":
@@ -1443,9 +1477,11 @@ def rule_r5(chk, c, roles, green):
             F = V[2]
             delta = sub(ev.read_field(s, me, F), V)
             if not child_len_ok(delta, G, vn, green):
-                r.violation(key + ":advance", "next() returns a %s element but moves the running offset `%s` by %s, not by "
-                            "the length of that green child: every following sibling gets a wrong offset — spans no "
-                            "longer tile the text" % (vn, F, show(delta)), wh)
+                length_mismatch(r, key + ":advance", "next() returns a %s element but moves the running offset `%s` by "
+                                "%s, not by the length of that green child: every following sibling gets a wrong "
+                                "offset — spans no longer tile the text" % (vn, F, show(delta)),
+                                canon_child_len(delta), child_len(G, green), wh)
+            iter_info.update({"self_ty": strip_generics(im["self_ty"]), "acc": F, "next": p})
             # the child is elements[index] and index moves by one
             X = G[1]
             idxf = None
@@ -1461,8 +1497,42 @@ def rule_r5(chk, c, roles, green):
                 if as_const(di) != 1:
                     r.violation(key + ":index", "next() returns elements[%s] but moves `%s` by %s (must be 1): a child "
                                 "is handed out twice or skipped while the offset moves on" % (idxf, idxf, show(di)), wh)
+                iter_info["idx"] = idxf
     if not r.anchor("Iterator impl whose items are %s" % last(EL), n_iter >= 1):
         return
+    # ---- (a') who may write the iterator's running offset / child index; how the iterator starts
+    it_adt = c.adt(iter_info.get("self_ty", "?")) if iter_info.get("self_ty") else None
+    if r.anchor("iterator struct with running offset `%s` and child index `%s`" % (iter_info.get("acc"), iter_info.get("idx")),
+                bool(it_adt) and iter_info.get("acc") and iter_info.get("idx")):
+        ITP = it_adt["path"]
+        ifields = [f["name"] for f in it_adt["variants"][0]["fields"]]
+        T = roles.types
+        for path, b in c.mir.items():
+            body = Body(b)
+            defs = None
+            for blk in body.blocks:
+                if blk["c"]:
+                    continue
+                for s_ in blk["s"]:
+                    if s_[0] != "a":
+                        continue
+                    place, rv, line = s_[1], s_[2], s_[3]
+                    pls = [(place, "writes")] + ([(rv[2], "mutably borrows")] if rv[0] == "ref" and rv[1] else [])
+                    for (pl, verb) in pls:
+                        for (i, f) in T.field_hits(body, pl, ITP, (iter_info["acc"], iter_info["idx"])):
+                            if i == len(pl[1]) - 1 and path != iter_info["next"]:
+                                analysis(r, "%s:%s-%s" % (path, verb.split()[-1], f), "%s %s %s.%s outside next(): the "
+                                         "pairing offset/child proven for next() no longer covers every change"
+                                         % (path, verb, last(ITP), f), where(c, path, line))
+                    if rv[0] == "agg" and rv[1][0] == "adt" and rv[1][1] == ITP:
+                        if defs is None:
+                            defs = simple_defs(body)
+                        r.instance(path + ":iterator-init", sample={"site": path})
+                        o = origin(body, rv[2][ifields.index(iter_info["idx"])], defs)
+                        if not (o[0] == "const" and o[1].get("v") == 0):
+                            r.violation(path + ":iterator-init", "%s starts the element iterator at a child index that is "
+                                        "not the constant 0 while the offset starts at the parent's start: the skipped "
+                                        "children's lengths are missing from every offset" % path, where(c, path, line))
     # ---- (b) every other wrapper construction site
     sites = {}
     for fp, fb in c.hir.items():
@@ -1475,6 +1545,35 @@ def rule_r5(chk, c, roles, green):
             continue
         fb = c.hir[fp]
         wh = where(c, fp)
+        # a function over the iterator's own state (peek): wraps elements[index] at the running offset, moves nothing
+        itparams = [S.pat_names(pt) for (pt, ty) in fb["params"]
+                    if iter_info.get("self_ty") and strip_generics(strip_ref(ty)) == iter_info["self_ty"]]
+        if len(itparams) == 1 and len(itparams[0]) == 1 and iter_info.get("acc") and iter_info.get("idx"):
+            me2 = ("param", itparams[0][0])
+            key = fp + ":at-iterator-state"
+            r.instance(key, sample={"site": fp})
+            ev = RedEv(c, wrappers, depth=0)
+            try:
+                rets = ev.run_fn(fp)
+            except Unsupported as e:
+                analysis(r, key, "%s: %s" % (fp, e), wh)
+                continue
+            for (s, _v) in rets:
+                for e_ in s.log:
+                    if e_[0] == "fieldwrite" and e_[1] == me2 and e_[2] in (iter_info["acc"], iter_info["idx"]):
+                        analysis(r, key, "%s moves the iterator state" % fp, wh)
+                    if e_[0] != "wrap":
+                        continue
+                    gi, oi = wrappers[e_[1]]
+                    Gs = greens_in(e_[2][gi]) | ({e_[2][gi]} if e_[2][gi][0] == "proj" else set())
+                    ok_child = len(Gs) == 1 and any(x == ("fld", me2, iter_info["idx"]) for x in S.subterms(list(Gs)[0]))
+                    if e_[2][oi] != ("ctor", TOFF, (("fld", me2, iter_info["acc"]),)):
+                        r.violation(key + ":offset", "%s wraps the current child at %s, not at the iterator's running "
+                                    "offset `%s`" % (last(fp), show(e_[2][oi]), iter_info["acc"]), wh)
+                    elif not ok_child:
+                        analysis(r, key + ":child", "%s: cannot see that the wrapped child is elements[%s]"
+                                 % (fp, iter_info["idx"]), wh)
+            continue
         gm = [n for n in S.walk(fb["body"]) if n[0] == "match"
               and any(pp in green["variant_ty"] for arm in n[2] for pp in hirq.pat_paths(arm[0]))]
         in_match = set()
@@ -1557,9 +1656,9 @@ def rule_r5(chk, c, roles, green):
                     continue
                 if is_zero(delta) and wrapped_here:
                     continue            # descent into the child: its children start at the same offset
-                r.violation(key + ":skip", "%s passes over a %s child but moves the running offset `%s` by %s instead of "
-                            "the child's length: everything found after it is reported at a wrong offset"
-                            % (last(fp), vn, acc, show(delta)), wh)
+                length_mismatch(r, key + ":skip", "%s passes over a %s child but moves the running offset `%s` by %s "
+                                "instead of the child's length: everything found after it is reported at a wrong offset"
+                                % (last(fp), vn, acc, show(delta)), canon_child_len(delta), child_len(G, green), wh)
     r.floor("descent arm paths evaluated", n_desc, 7)
     r.floor("rule instances", r.instances, 9)
 
